@@ -194,7 +194,7 @@ func VH_C01_automaton() {
 	ignoring := (mt == 1 && (st == 0 || st == 2)) || (mt == 2 && st != 2) || (mt == 3 && st != 3)
 	if ignoring {
 		vAssert("ignored-no-error", err == nil)
-		vAssert("ignored-state-kept", c.ake.state == states[st])
+		vAssert("ignored-state-kept", c.ake.state.identity() == states[st].identity())
 	}
 	vReach("end")
 }
